@@ -49,7 +49,7 @@ Judge(e, W, M, tt, aux, x) ==
            echoing == aux.echo.st = 2 /\ x.ptf = aux.echo.plan /\ x.pobj = aux.echo.s /\ C08Plan(M, aux.echo.plan)
            reduced == x.ptf.k = "obj" /\ ~x.ptf.null /\ ~x.ptf.unk /\ DOMAIN x.ptf.attrs = {} /\ SubTypeOf(TObj(x.ptf.at), tt) /\ x.ptf.at # tt.at
            ctx06 == [M |-> M, obj |-> x.pobj, pre |-> x.ptf, tf |-> x.tf, dg |-> x.dg, pn |-> x.pn]
-           ctx08 == [M |-> M, plan |-> aux.echo.plan, back |-> x.tf, dg1 |-> aux.echo.dg, dg2 |-> x.dg, pn |-> x.pn]
+           ctx08 == [M |-> M, obj |-> x.pobj, plan |-> aux.echo.plan, back |-> x.tf, dg1 |-> aux.echo.dg, dg2 |-> x.dg, pn |-> x.pn]
        IN [viol |-> (IF fromEmpty /\ "C03" \in W THEN C03(ctx03) ELSE {})
                  \cup (IF fromEmpty /\ "C20" \in W THEN C20(ctx03) ELSE {})
                  \cup (IF fromEmpty /\ "C02" \in W /\ ~x.pn THEN C02To(M, x.pobj, x.tf) ELSE {})
